@@ -390,9 +390,10 @@ func r14Writer(c *RuleCtx) {
 		}
 		role := "?"
 		width := widthOf(v.Type())
+		if pr, ok := paramRole(v); ok {
+			role = pr
+		}
 		switch x := v.(type) {
-		case *ssa.Parameter:
-			role = canonParamName(x)
 		case *ssa.Const:
 			if k, ok := constUint64(x); ok {
 				if ver, ok2 := c.p.ZapTypes.Scope().Lookup("Version").(*types.Const); ok2 && ver.Val().String() == fmt.Sprint(k) {
@@ -470,7 +471,7 @@ func r14Writer(c *RuleCtx) {
 	eachInstr(fn, func(b *ssa.BasicBlock, in ssa.Instruction) {
 		if st, ok := in.(*ssa.Store); ok {
 			if sn, fld, base, ok := fieldOf(st.Addr); ok && sn == "CountHashWriter" && fld == "crc" && crcWriter != nil && root(base) == crcWriter {
-				if p, ok := st.Val.(*ssa.Parameter); ok && widthOf(p.Type()) == 4 {
+				if _, ok := paramRole(st.Val); ok && widthOf(st.Val.Type()) == 4 {
 					if len(writes) > 0 && (b == writes[0].Block() || b.Dominates(writes[0].Block())) {
 						seeded = true
 					}
@@ -757,6 +758,87 @@ func r14Reader(c *RuleCtx) {
 		fmt.Sprintf("%d v16 paths, %d match: %s", nV16, matched, strings.Join(why, "; ")))
 }
 
+// paramRole: the role of a value inside a function by the parameter it comes from: the (pinned) name of a
+// parameter, or — when the parameters were folded into a struct (`persistFooter(ft footer, w)`) — the name
+// of the field of a struct-typed parameter it is read from.
+func paramRole(v ssa.Value) (string, bool) {
+	if mi, ok := v.(*ssa.MakeInterface); ok {
+		v = mi.X
+	}
+	switch x := v.(type) {
+	case *ssa.Parameter:
+		if _, isStruct := derefType(x.Type()).Underlying().(*types.Struct); isStruct {
+			return "", false
+		}
+		return canonParamName(x), true
+	case *ssa.Field:
+		if p, ok := x.X.(*ssa.Parameter); ok {
+			if st, ok := p.Type().Underlying().(*types.Struct); ok {
+				return st.Field(x.Field).Name(), true
+			}
+		}
+	case *ssa.UnOp:
+		if x.Op != token.MUL {
+			return "", false
+		}
+		fa, ok := x.X.(*ssa.FieldAddr)
+		if !ok {
+			return "", false
+		}
+		st, ok := derefType(fa.X.Type()).Underlying().(*types.Struct)
+		if !ok {
+			return "", false
+		}
+		switch b := fa.X.(type) {
+		case *ssa.Parameter: // a pointer to the struct
+			return st.Field(fa.Field).Name(), true
+		case *ssa.Alloc: // the struct parameter spilled into its local
+			for _, stx := range cellStores(b) {
+				if _, isParam := stx.Val.(*ssa.Parameter); !isParam {
+					return "", false
+				}
+			}
+			if len(cellStores(b)) == 1 {
+				return st.Field(fa.Field).Name(), true
+			}
+		}
+	}
+	return "", false
+}
+
+// structArgFields: the value handed for a struct-typed parameter, as field name -> value (a composite
+// literal; fields it does not mention are the zero value and are absent from the map).
+func structArgFields(arg ssa.Value) (map[string]ssa.Value, bool) {
+	u, ok := arg.(*ssa.UnOp)
+	if !ok || u.Op != token.MUL {
+		return nil, false
+	}
+	al, ok := u.X.(*ssa.Alloc)
+	if !ok {
+		return nil, false
+	}
+	st, ok := derefType(al.Type()).Underlying().(*types.Struct)
+	if !ok {
+		return nil, false
+	}
+	out := map[string]ssa.Value{}
+	for _, r := range *al.Referrers() {
+		fa, ok := r.(*ssa.FieldAddr)
+		if !ok {
+			continue
+		}
+		for _, r2 := range *fa.Referrers() {
+			if stx, ok := r2.(*ssa.Store); ok && stx.Addr == ssa.Value(fa) {
+				if _, dup := out[st.Field(fa.Field).Name()]; dup {
+					return nil, false
+				}
+				out[st.Field(fa.Field).Name()] = stx.Val
+			}
+		}
+	}
+	return out, true
+}
+
 // r14CallSites: the arguments of the two persistFooter calls have the right roles.
 func r14CallSites(c *RuleCtx) {
 	pf := c.fn("persistFooter")
@@ -777,13 +859,51 @@ func r14CallSites(c *RuleCtx) {
 		n++
 		args := cs.Common().Args
 		var bad []string
+		// (role, value) pairs: one per parameter, a struct-typed parameter contributing one per field
+		// (fields its literal leaves out are zero)
+		type roleArg struct {
+			role string
+			val  ssa.Value
+		}
+		var pairs []roleArg
 		for i, a := range args {
 			if i >= len(roles) {
 				break
 			}
-			role := roles[i]
-			r := root(a)
+			if st, ok := pf.Params[i].Type().Underlying().(*types.Struct); ok {
+				fields, ok := structArgFields(a)
+				if !ok {
+					bad = append(bad, "the footer values are not handed over as a composite literal")
+					continue
+				}
+				for j := 0; j < st.NumFields(); j++ {
+					nm := st.Field(j).Name()
+					if v, has := fields[nm]; has {
+						pairs = append(pairs, roleArg{nm, v})
+					} else {
+						pairs = append(pairs, roleArg{nm, nil})
+					}
+				}
+				continue
+			}
+			pairs = append(pairs, roleArg{roles[i], a})
+		}
+		// the chunk mode handed to the footer (for the merge check below)
+		var chunkModeArg ssa.Value
+		for _, pr := range pairs {
+			if pr.role == "chunkMode" {
+				chunkModeArg = pr.val
+			}
+		}
+		for _, pr := range pairs {
+			role := pr.role
+			a := pr.val
 			desc := ""
+			if a == nil {
+				desc = "const 0"
+				a = ssa.NewConst(nil, types.Typ[types.Uint64])
+			}
+			r := root(a)
 			switch x := r.(type) {
 			case *ssa.UnOp:
 				if sn, fld, _, ok := loadedField(x); ok {
@@ -838,10 +958,10 @@ func r14CallSites(c *RuleCtx) {
 					mtw = cs2
 				}
 			}
-			if mtw != nil && len(args) > 5 {
+			if mtw != nil && chunkModeArg != nil {
 				same := false
 				for _, a := range mtw.Common().Args {
-					if sameValue(a, args[5]) {
+					if sameValue(a, chunkModeArg) {
 						same = true
 					}
 				}
